@@ -1,6 +1,7 @@
 /-
 C11  Enforce blocks, audit forwards and records; every denial is recorded once.
 -/
+import Gpa.Generated.Facts
 import Gpa.Lemmas.Pipeline
 import Gpa.Lemmas.Rbac
 namespace Gpa.Props.C11
@@ -134,6 +135,96 @@ theorem counts_perm (ks ks' : List κ) (h : ks.Perm ks') (q : κ) :
     countOf (ks.foldl addOne []) q = countOf (ks'.foldl addOne []) q := by
   rw [counts, counts, h.count_eq]
 end summary
+
+/-! ### the status task: what is counted is published until it is cleared, and it is cleared a day after the task started
+
+`loop_status` publishes the summary in every iteration and clears it when `start_time.elapsed() >= map_clear_duration`,
+`start_time` being the moment the task started or last cleared (generated facts: the duration, the test, the two
+places `start_time` is set). Denials can be recorded before the task runs its first iteration (the task is started
+only once provisioning has finished or timed out). -/
+section statusTask
+variable {κ : Type} [DecidableEq κ]
+
+inductive TaskEv (κ : Type) where
+  /-- a denial recorded at the status actor -/
+  | deny (k : κ)
+  /-- one iteration of the status loop, `t` ms after the task started (monotonic clock) -/
+  | tick (t : Nat)
+
+structure TaskSt (κ : Type) where
+  summary : List (κ × Nat)
+  /-- `start_time`, in ms after the task started -/
+  since : Nat
+  /-- what every iteration wrote to status.json, latest first -/
+  published : List (List (κ × Nat))
+
+def clearAfterMs : Nat := Gpa.Facts.statusClearSeconds * 1000
+
+def taskStep (s : TaskSt κ) : TaskEv κ → TaskSt κ
+  | .deny k => { s with summary := addOne s.summary k }
+  | .tick t =>
+    if t - s.since ≥ clearAfterMs then { summary := [], since := t, published := s.summary :: s.published }
+    else { s with published := s.summary :: s.published }
+
+def denialsOf : List (TaskEv κ) → List κ
+  | [] => []
+  | .deny k :: t => k :: denialsOf t
+  | .tick _ :: t => denialsOf t
+
+/-- every iteration in the history comes less than a day after the task started -/
+def Early : List (TaskEv κ) → Prop
+  | [] => True
+  | .deny _ :: t => Early t
+  | .tick x :: t => x < clearAfterMs ∧ Early t
+
+theorem early_history (evs : List (TaskEv κ)) (s : TaskSt κ) (h0 : s.since = 0) (h : Early evs) :
+    (evs.foldl taskStep s).summary = (denialsOf evs).foldl addOne s.summary ∧ (evs.foldl taskStep s).since = 0 := by
+  induction evs generalizing s with
+  | nil => exact ⟨rfl, h0⟩
+  | cons e t ih =>
+    cases e with
+    | deny k => exact ih _ h0 h
+    | tick x =>
+      obtain ⟨hx, ht⟩ := h
+      have hn : ¬ (x - s.since ≥ clearAfterMs) := by rw [h0]; omega
+      simp only [List.foldl_cons, taskStep, if_neg hn, denialsOf]
+      exact ih _ h0 ht
+
+/-- **C11 (every denial recorded, status task)** denials recorded before the task started (`before`) and while it
+runs are all in what an iteration publishes, as long as less than a day has passed since the task started: the count
+published under `q` is the number of denials with key `q` so far -/
+theorem published_counts_every_denial_so_far (before : List κ) (evs : List (TaskEv κ)) (t : Nat) (q : κ)
+    (h : Early evs) :
+    let s0 : TaskSt κ := { summary := before.foldl addOne [], since := 0, published := [] }
+    ((evs ++ [TaskEv.tick t]).foldl taskStep s0).published.head?.map (countOf · q) = some ((before ++ denialsOf evs).count q) := by
+  intro s0
+  obtain ⟨hs, h0⟩ := early_history evs s0 rfl h
+  have e : ∀ s : TaskSt κ, (taskStep s (.tick t)).published.head? = some s.summary := by
+    intro s; simp only [taskStep]; split <;> rfl
+  rw [List.foldl_append, List.foldl_cons, List.foldl_nil, e, hs]
+  simp only [Option.map_some, s0]
+  rw [← List.foldl_append, counts]
+
+/-- the summary is cleared only by an iteration that comes a full day after the task started or last cleared -/
+theorem cleared_only_after_a_day (s : TaskSt κ) (t : Nat) (h : (taskStep s (.tick t)).since ≠ s.since) :
+    t - s.since ≥ clearAfterMs := by
+  by_cases hc : t - s.since ≥ clearAfterMs
+  · exact hc
+  · simp [taskStep, hc] at h
+
+theorem status_task_facts :
+    Gpa.Facts.statusClearSeconds = 86400 ∧ Gpa.Facts.statusClearTest = 1 ∧ Gpa.Facts.statusClearRestarts = 2 := by decide
+
+end statusTask
+
+/-- negative witness: a clear that fires at the first iteration (a timer whose first tick is immediate) drops the
+denials recorded before the task started; the source's rule keeps them -/
+theorem clear_at_first_iteration_loses_denials :
+    let s0 : TaskSt Nat := { summary := [7, 7, 9].foldl addOne [], since := 0, published := [] }
+    let eager (s : TaskSt Nat) (t : Nat) : TaskSt Nat := { summary := [], since := t, published := s.summary :: s.published }
+    ((taskStep (eager s0 0) (.tick 60)).published.head?.map (countOf · 7) = some 0) ∧
+    ((taskStep (taskStep s0 (.tick 0)) (.tick 60)).published.head?.map (countOf · 7) = some 2) := by
+  decide
 
 /-- the denial keys of a history of requests: one key per request whose handling produced a
 failed-authorization record -/
